@@ -50,8 +50,11 @@ type Exec struct {
 	decisions []int // prefix to replay
 	dpos      int
 	taken     []int // all decisions taken on this path
-	alts      [][]int
+	alts      []workItem
 	picks     []pickRec
+	model     *Model // a model of the current path condition, or nil
+	modelHits int
+	timeVars  int
 
 	known map[*Term]bool
 	pc    []*Term
@@ -74,6 +77,7 @@ type Exec struct {
 	knownConds []knownCond
 	observed   []obsRec
 	modelOpen  bool
+	pkgInited  map[*ssa.Package]bool
 	lastPanic  string
 
 	enteredLocal  map[*ssa.Function]int
@@ -81,6 +85,11 @@ type Exec struct {
 	mapRangeLocal map[string]int
 	branches   int
 	overflowOn bool
+}
+
+type workItem struct {
+	decisions []int
+	model     map[string]string
 }
 
 type knownCond struct {
@@ -190,6 +199,52 @@ func (e *Exec) checkWith(extra *Term, timeoutMs int) string {
 	return r
 }
 
+// fetchModel reads the values of all declared variables from the solver (after a sat answer).
+func (e *Exec) fetchModel() map[string]string {
+	var refs []string
+	for _, v := range e.tc.vars {
+		refs = append(refs, v.ref)
+	}
+	vals := e.solver.GetValues(refs)
+	out := make(map[string]string, len(vals))
+	for _, v := range e.tc.vars {
+		out[strings.Trim(v.ref, "|")] = normVal(vals[v.ref])
+	}
+	return out
+}
+
+func (e *Exec) copyModelVals() map[string]string {
+	if e.model == nil {
+		return nil
+	}
+	out := make(map[string]string, len(e.model.vals))
+	for k, v := range e.model.vals {
+		out[k] = v
+	}
+	return out
+}
+
+// ensureModel makes sure a model of the path condition is available (one query if not).
+func (e *Exec) ensureModel() bool {
+	if e.model != nil {
+		return true
+	}
+	r := e.checkWith(tTrue, e.h.feasTimeoutMs)
+	if r == "sat" {
+		e.model = newModel(e.fetchModel())
+	}
+	e.popModel()
+	return e.model != nil
+}
+
+// holds evaluates c under the current model: (value, known).
+func (e *Exec) holds(c *Term) (bool, bool) {
+	if e.model == nil {
+		return false, false
+	}
+	return e.model.evalBool(c)
+}
+
 // popModel must be called after a "sat" checkWith once the model is no longer needed.
 func (e *Exec) popModel() {
 	if e.modelOpen {
@@ -232,32 +287,76 @@ func (e *Exec) branch(c *Term) bool {
 		e.learn(c, val)
 		return val
 	}
-	rt := e.checkWith(c, e.h.feasTimeoutMs)
-	e.popModel()
-	if rt == "unsat" {
+	notC := e.tc.Not(c)
+	mv, mok := e.holds(c)
+	var feasT, feasF string
+	var modelT, modelF map[string]string
+	if mok {
+		e.modelHits++
+		if mv {
+			feasT = "sat"
+		} else {
+			feasF = "sat"
+		}
+	}
+	if feasT == "" {
+		feasT = e.checkWith(c, e.h.feasTimeoutMs)
+		if feasT == "sat" {
+			modelT = e.fetchModel()
+		}
+		e.popModel()
+	}
+	if feasT == "unsat" && feasF == "" {
+		feasF = "sat" // the path condition is satisfiable by invariant
+	}
+	if feasF == "" {
+		feasF = e.checkWith(notC, e.h.feasTimeoutMs)
+		if feasF == "sat" {
+			modelF = e.fetchModel()
+		}
+		e.popModel()
+	}
+	setModel := func(keep bool, m map[string]string) {
+		if keep {
+			return
+		}
+		if m != nil {
+			e.model = newModel(m)
+		} else {
+			e.model = nil
+		}
+	}
+	if feasT == "unsat" {
 		e.taken = append(e.taken, 2)
 		e.known[c] = false
 		e.learn(c, false)
+		setModel(mok && !mv, modelF)
 		return false
 	}
-	rf := e.checkWith(e.tc.Not(c), e.h.feasTimeoutMs)
-	e.popModel()
-	if rf == "unsat" {
+	if feasF == "unsat" {
 		e.taken = append(e.taken, 3)
 		e.known[c] = true
 		e.learn(c, true)
+		setModel(mok && mv, modelT)
 		return true
 	}
-	if rt == "unknown" || rf == "unknown" {
+	if feasT == "unknown" || feasF == "unknown" {
 		e.h.noteFeasUnknown()
 	}
-	// both feasible (or unknown): take true now, schedule false
-	alt := append(append([]int(nil), e.taken...), 0)
-	e.alts = append(e.alts, alt)
-	e.taken = append(e.taken, 1)
-	e.assertTerm(c)
-	e.known[c] = true
-	return true
+	// both feasible (or unknown): continue on the side the model takes, schedule the other
+	if !(mok && !mv) {
+		e.alts = append(e.alts, workItem{decisions: append(append([]int(nil), e.taken...), 0), model: modelF})
+		e.taken = append(e.taken, 1)
+		setModel(mok && mv, modelT)
+		e.assertTerm(c)
+		e.known[c] = true
+		return true
+	}
+	e.alts = append(e.alts, workItem{decisions: append(append([]int(nil), e.taken...), 1), model: modelT})
+	e.taken = append(e.taken, 0)
+	e.assertTerm(notC)
+	e.known[c] = false
+	return false
 }
 
 // pick is a concrete n-way choice (shape enumeration).
@@ -288,7 +387,7 @@ func (e *Exec) pick(name string, n int) int {
 		k = 0
 		for alt := 1; alt < n; alt++ {
 			a := append(append([]int(nil), e.taken...), 100+alt)
-			e.alts = append(e.alts, a)
+			e.alts = append(e.alts, workItem{decisions: a, model: e.copyModelVals()})
 		}
 	}
 	e.taken = append(e.taken, 100+k)
@@ -310,13 +409,22 @@ func (e *Exec) assume(c *Term) {
 		return
 	}
 	if !e.replaying() {
-		r := e.checkWith(c, e.h.feasTimeoutMs)
-		e.popModel()
-		if r == "unsat" {
-			panic(abortRun{kind: "infeasible", msg: "assumption infeasible"})
-		}
-		if r == "unknown" {
-			e.h.noteFeasUnknown()
+		if v, ok := e.holds(c); ok && v {
+			e.modelHits++
+		} else {
+			r := e.checkWith(c, e.h.feasTimeoutMs)
+			if r == "sat" {
+				e.model = newModel(e.fetchModel())
+			} else {
+				e.model = nil
+			}
+			e.popModel()
+			if r == "unsat" {
+				panic(abortRun{kind: "infeasible", msg: "assumption infeasible"})
+			}
+			if r == "unknown" {
+				e.h.noteFeasUnknown()
+			}
 		}
 	}
 	e.assertTerm(c)
@@ -467,7 +575,7 @@ type HarnessRun struct {
 	groups          map[string]bool // assertion label prefixes to check (nil = all)
 
 	mu           sync.Mutex
-	queue        [][]int
+	queue        []workItem
 	active       int
 	cond         *sync.Cond
 	paths        int
@@ -478,6 +586,7 @@ type HarnessRun struct {
 	abortMsgs    map[string]int
 	branchTotal  int
 	feasUnknown  int
+	modelHits    int
 	labels       map[string]*labelStat
 	covers       map[string]*Scenario
 	coverHits    map[string]int
@@ -634,10 +743,19 @@ func (e *Exec) assumeAfterAssert(c *Term) {
 		return
 	}
 	if !e.replaying() {
-		r := e.checkWith(c, e.h.feasTimeoutMs)
-		e.popModel()
-		if r == "unsat" {
-			panic(abortRun{kind: "done", msg: "assertion fails on every input of this path"})
+		if v, ok := e.holds(c); ok && v {
+			e.modelHits++
+		} else {
+			r := e.checkWith(c, e.h.feasTimeoutMs)
+			if r == "sat" {
+				e.model = newModel(e.fetchModel())
+			} else {
+				e.model = nil
+			}
+			e.popModel()
+			if r == "unsat" {
+				panic(abortRun{kind: "done", msg: "assertion fails on every input of this path"})
+			}
 		}
 	}
 	e.assertTerm(c)
@@ -701,7 +819,7 @@ func (e *Exec) doCover(label string) {
 
 func (h *HarnessRun) runAll(workers int) {
 	h.cond = sync.NewCond(&h.mu)
-	h.queue = [][]int{nil}
+	h.queue = []workItem{{}}
 	h.start = time.Now()
 	var wg sync.WaitGroup
 	for w := 0; w < workers; w++ {
@@ -724,7 +842,7 @@ func (h *HarnessRun) runAll(workers int) {
 					h.cond.Broadcast()
 					return
 				}
-				prefix := h.queue[len(h.queue)-1]
+				item := h.queue[len(h.queue)-1]
 				h.queue = h.queue[:len(h.queue)-1]
 				h.active++
 				h.paths++
@@ -744,7 +862,7 @@ func (h *HarnessRun) runAll(workers int) {
 						os.Exit(2)
 					}
 				}
-				alts := h.runPath(prefix, s)
+				alts := h.runPath(item, s)
 				h.mu.Lock()
 				h.queue = append(h.queue, alts...)
 				h.active--
@@ -756,12 +874,17 @@ func (h *HarnessRun) runAll(workers int) {
 	wg.Wait()
 }
 
-func (h *HarnessRun) runPath(prefix []int, s *Solver) (alts [][]int) {
-	e := &Exec{prog: h.prog, h: h, tc: newTermCtx(), solver: s, decisions: prefix,
+func (h *HarnessRun) runPath(item workItem, s *Solver) (alts []workItem) {
+	e := &Exec{prog: h.prog, h: h, tc: newTermCtx(), solver: s, decisions: item.decisions,
 		known: map[*Term]bool{}, globals: map[*ssa.Global]Ptr{}, globalOverride: map[string]Value{},
 		maxSteps: h.maxSteps, permuteMaps: h.permuteMaps, overflowOn: h.overflowOn,
 		enteredLocal: map[*ssa.Function]int{}, intrLocal: map[string]int{}}
 	e.env = newEnvState()
+	if item.model != nil {
+		e.model = newModel(item.model)
+	} else if len(item.decisions) == 0 {
+		e.model = newModel(map[string]string{})
+	}
 	e.trace = h.prog.trace
 	s.Push()
 	outcome := "completed"
@@ -792,6 +915,7 @@ func (h *HarnessRun) runPath(prefix []int, s *Solver) (alts [][]int) {
 	h.mu.Lock()
 	defer h.mu.Unlock()
 	h.branchTotal += e.branches
+	h.modelHits += e.modelHits
 	for f, n := range e.enteredLocal {
 		h.entered[funcKey(f)+"@"+h.prog.funcPos(f)] += n
 	}
